@@ -568,6 +568,8 @@ func runC20(r *Run, rng *Rng, replay string) {
 	}
 	// 8. deepening round: range/letter-range neighbours, range decoder, range-taking cell APIs, writer/reader pairs
 	c20deepen(r, rng, thorough)
+	// 9. deepening round 2: multi-range layer, merged-cell redirect
+	c20deepen2(r, rng, thorough)
 	for _, s := range r.opsSample(10) {
 		r.Sample(s)
 	}
@@ -590,7 +592,7 @@ func mixCase(s string) string {
 func c20replay(r *Run, path string) {
 	for _, line := range readLines(path) {
 		w := strings.Fields(line)
-		if len(w) == 0 {
+		if len(w) == 0 || c20replay2(r, w) {
 			continue
 		}
 		switch w[0] {
